@@ -23,8 +23,8 @@ class ClientVisitor:
     def __init__(self) -> None:
         pass
 
-    def visit(self, spec: IRSpec, context: RenderContext) -> str:
-        # Step 1: Process tags and build tag_tuples
+    def tag_tuples(self, spec: IRSpec) -> list[tuple[str, str, str]]:
+        """Return (canonical tag, client class name, module name) per tag group, sorted by tag key."""
         tag_candidates: dict[str, list[str]] = {}
         for op in spec.operations:
             # Use DEFAULT_TAG consistent with EndpointsEmitter
@@ -61,6 +61,11 @@ class ClientVisitor:
             )
             for key in sorted(tag_map)
         ]
+        return tag_tuples
+
+    def visit(self, spec: IRSpec, context: RenderContext) -> str:
+        # Step 1: Process tags and build tag_tuples
+        tag_tuples = self.tag_tuples(spec)
 
         # Step 2: Generate Protocol definition
         protocol_code = self.generate_client_protocol(spec, context, tag_tuples)
